@@ -16,6 +16,10 @@ import (
 	"golang.org/x/tools/go/ssa"
 )
 
+var seq2Type = types.NewNamed(types.NewTypeName(token.NoPos, nil, "seq2", nil), types.Typ[types.UnsafePointer], nil)
+
+func mSeq2(t *Term) Value { return Value{T: seq2Type, C: []*Term{t}} }
+
 var (
 	mathInt  = types.Typ[types.UntypedInt]
 	mathBool = types.Typ[types.UntypedBool]
@@ -358,6 +362,9 @@ func (sc *specCtx) index(e ast.Expr, base Value, idx *Term) Value {
 	if base.T == seqType {
 		return mInt(Select(base.C[0], idx))
 	}
+	if base.T == seq2Type {
+		return mSeq(Select(base.C[0], idx))
+	}
 	switch bt := base.T.Underlying().(type) {
 	case *types.Slice:
 		p := &Ptr{Kind: PElem, Ref: base.C[0], Idx: Add(base.C[1], idx), RootT: bt.Elem()}
@@ -538,7 +545,7 @@ func (sc *specCtx) call(e *ast.CallExpr) Value {
 				return mInt(v.C[2])
 			}
 		case *types.Chan:
-			return mInt(Select(sc.st.region("chan.len", sArrII), v.C[0]))
+			return mInt(x.chanLen(sc.st, v))
 		case *types.Map:
 			return mInt(Select(sc.st.region("map.len", sArrII), v.C[0]))
 		}
@@ -549,7 +556,7 @@ func (sc *specCtx) call(e *ast.CallExpr) Value {
 		case *types.Slice:
 			return mInt(v.C[3])
 		case *types.Chan:
-			return mInt(Select(sc.st.region("chan.cap", sArrII), v.C[0]))
+			return mInt(Select(sc.st.region(chReg("cap", v.T), sArrII), v.C[0]))
 		}
 		sc.errf(e, "cap of %v", v.T)
 	case "ref":
@@ -590,6 +597,47 @@ func (sc *specCtx) call(e *ast.CallExpr) Value {
 		// seq_eq(a, ao, b, bo, n) over content arrays
 		a, ao, b, bo, n := sc.eval(arg(0)).C[0], sc.evalInt(arg(1)), sc.eval(arg(2)).C[0], sc.evalInt(arg(3)), sc.evalInt(arg(4))
 		return mBool(App("streq", SBool, a, ao, n, b, bo, n))
+	case "flatlen", "flatat", "flatlenk", "flatatk":
+		// flattened view of a [][]byte value: flatlen(v), flatat(v, j); the k-variants take the number of buffers
+		v := sc.eval(arg(0))
+		sl, ok := v.T.Underlying().(*types.Slice)
+		if !ok {
+			sc.errf(e, "flat view of %v", v.T)
+		}
+		inner := sl.Elem()
+		ic := Flatten(inner) // ref off len cap
+		refs := elemArr(sc.st, inner, ic[0], v.C[0])
+		offs := elemArr(sc.st, inner, ic[1], v.C[0])
+		lens := elemArr(sc.st, inner, ic[2], v.C[0])
+		bt := inner.Underlying().(*types.Slice).Elem()
+		E := sc.st.region(elemsBase(bt)+Flatten(bt)[0].Suffix, SArr(sArrII))
+		k := v.C[2]
+		ai := 1
+		if name == "flatlenk" || name == "flatatk" {
+			k = sc.evalInt(arg(1))
+			ai = 2
+		}
+		x.usedFuncs["flatlen_"] = true
+		if name == "flatlen" || name == "flatlenk" {
+			return mInt(App("spec.flatlen_", SInt, lens, v.C[1], k))
+		}
+		x.usedFuncs["flatat_"] = true
+		return mInt(App("spec.flatat_", SInt, E, refs, offs, lens, v.C[1], k, sc.evalInt(arg(ai))))
+	case "closed":
+		v := sc.eval(arg(0))
+		return mBool(Select(sc.st.region(chReg("closed", v.T), SArr(SBool)), v.C[0]))
+	case "qat":
+		// i-th queued element of a channel
+		v := sc.eval(arg(0))
+		i := sc.evalInt(arg(1))
+		et := chanElem(v.T)
+		head := Select(sc.st.region(chReg("head", v.T), sArrII), v.C[0])
+		comps := Flatten(et)
+		out := Value{T: et, C: make([]*Term, len(comps))}
+		for j, c := range comps {
+			out.C[j] = Select(Select(sc.st.region("chan.q."+typeName(et)+c.Suffix, SArr(SArr(c.Sort))), v.C[0]), Add(head, i))
+		}
+		return out
 	case "hastype":
 		v := sc.eval(arg(0))
 		t := sc.typeExpr(arg(1))
@@ -662,6 +710,8 @@ func specSort(s string) *Sort {
 		return SBool
 	case "seq":
 		return sArrII
+	case "seq2":
+		return SArr(sArrII)
 	}
 	return SInt
 }
@@ -729,6 +779,8 @@ func (x *Exec) specFuncDefs() string {
 				sc.vars[p] = mBool(bv)
 			case "seq":
 				sc.vars[p] = mSeq(bv)
+			case "seq2":
+				sc.vars[p] = mSeq2(bv)
 			default:
 				sc.vars[p] = mInt(bv)
 			}
